@@ -24,6 +24,7 @@ THEOREMS = [
     "Typedpy.C16.fixed_name_clash_example", "Typedpy.C16.stub_methods_dupfree",
     "Typedpy.C16.stub_text_example",
     "Typedpy.C16.parse_rejects_examples",
+    "Typedpy.C16.type_info_wf", "Typedpy.C16.type_info_example",
     "Typedpy.C16.lex_render_roundtrip", "Typedpy.C16.stub_init_text_accepted",
     "Typedpy.C16.stub_helper_text_accepted", "Typedpy.C16.stub_method_text_accepted",
     "Typedpy.C16.stub_kw_agree",
@@ -66,7 +67,7 @@ RULE = ("generated modules: 2-7 Structure classes (annotation and assignment sty
 ASSUMPTIONS = [
     "partial property: file I/O, import resolution, module constants / enum bodies / import lines and the character-level lexer are decided or corresponded by running CPython (ast.parse, compile, tokenize), not proved",
     "the recogniser models the token / expression subset the generator writes (names, subscriptions, list displays, literals, `...`; no operators, calls, slices, starred items, parentheses inside parameter lists)",
-    "how a Field becomes an annotation (get_type_info) is not modelled: annotation ASTs are read off the real get_type_info per case and universally quantified in the theorems",
+    "of get_type_info only the nesting combinators (Optional / Union / dict[..]) are modelled; every other field kind is a leaf whose annotation AST is read off the real get_type_info per case and universally quantified in the theorems",
     "tree-shaped hierarchies: theorems by induction over the whole hierarchy (Sem/Stub.lean); shared ancestors / diamonds: one-step theorems over Sem/Define.lean worlds (Sem/StubDefine.lean)",
     "classes that inherit a user-written __init__: the stub is compared with inspect.signature(cls) only",
     "TypedPyDefaults.additional_properties_default does not change between the definition of a base and of its subclasses",
